@@ -246,6 +246,29 @@ def tie_a(prop, tier, seed):
     return cases, dis, stats
 
 
+# ------------------------------------------------------------------ known findings
+def known_findings(prop, cases):
+    """open findings of this property whose witness still shows the failing construct in the REAL expansion"""
+    path = os.path.join(VERIF, 'known_findings.json')
+    if not os.path.exists(path):
+        return []
+    kf = json.load(open(path))
+    out = []
+    by_id = dict(cases)
+    for f in kf.get('open', []):
+        if prop not in f['properties'] or f['case'] not in by_id:
+            continue
+        ires, _ = impl_observations(cases, [f['cfg']])
+        r = ires[f['cfg']].get(f['case'])
+        if not r or r['status'] != 'ok':
+            continue
+        pat = f['tokens']
+        hit = any(any(toks[j:j + len(pat)] == pat for j in range(len(toks) - len(pat) + 1)) for toks in r['impls'])
+        if hit:
+            out.append(f)
+    return out
+
+
 # ------------------------------------------------------------------ main
 def write_evidence(prop, ev):
     os.makedirs(EVID, exist_ok=True)
@@ -290,6 +313,7 @@ def check(prop, tier, seed):
                             'the theorems of coq/Props/%s.v are about the model and no longer transfer to the code' % prop,
                        replay_cmd='./dwv replay <this file>')
         violations.append((payload, False))
+    known = known_findings(prop, cases)
     wall = time.time() - t0
     samples = list(audit.get('statements', []))[:2]
     for cid, it in cases[:1] + cases[len(cases) // 2:len(cases) // 2 + 1] + cases[-1:]:
@@ -306,12 +330,15 @@ def check(prop, tier, seed):
                  'extracted Coq model in each feature configuration of the property and compared token for token; non-trivial = accepted by the macro',
             programs=stats['cases'], traces_validated_against_impl=stats['compared'],
             correspondence=stats, disagreements_owned=len(mine), disagreements_other_properties=others,
+            known_findings_reproduced=[k['id'] for k in known],
             samples=samples, exhaustive=False),
         assumptions=TRUSTED_BASE)
     write_evidence(prop, ev)
     print('%s %s: %d/%d theorems closed; correspondence: %d cases x %d cfgs, %d impls, %d tokens, %d disagreements (%d owned); %.1fs'
           % (prop, tier, ev['coverage']['discharged'], audit['obligations'], stats['cases'], len(stats['cfgs']), stats['impls_compared'],
              stats['tokens_compared'], len(dis), len(mine), wall))
+    for k in known:
+        print('KNOWN-FINDING: property=%s %s %s' % (prop, k['id'], k['what']))
     if stats['generator_errors']:
         print('note: %d generated items were not parsable Rust (generator bug, ignored)' % stats['generator_errors'])
     if not violations:
